@@ -13,13 +13,16 @@ RULE = ('a deterministic scenario (pending request-response awaiting a late futu
         'quick tier, every offset in the thorough tier) in each direction as orderly EOF or transport error, cut after '
         'every message index on the message link, explicit close() by either endpoint just before / after every '
         'distinct instant, failure of the n-th write, and application code that raises inside the clean-up itself. '
-        'Each fault point is a distinct case; non-trivial = at least one interaction was pending when the fault hit.')
+        'Each fault point is a distinct case; non-trivial = at least one interaction was pending when the fault hit. '
+        'after-loss: seeded cases in which the connection ends (EOF / error / peer close), the application of one '
+        'endpoint then issues 1..3 further requests of any model, and that endpoint is closed: every one of them must '
+        'be resolved (or its call must have raised) after close().')
 ASSUMPTIONS = ['pending at the moment of the fault = the API call was made before the endpoint delivered on_close',
                'task attributes _sender_task/_receiver_task/_keepalive_task are read after the settle; a missing '
                'attribute makes the check inconclusive',
                'settle = 12 virtual seconds (12 keepalive periods) after the scenario horizon']
 DECIDING_REQUIRED = ('fault_points_run', 'pending_requests_judged', 'producers_judged', 'on_close_checked',
-                     'cuts_inside_fragment_runs')
+                     'cuts_inside_fragment_runs', 'requests_issued_after_loss_judged')
 BUDGET_S = {'quick': 100, 'thorough': 2400}
 
 N_SCENARIOS = {'quick': 6, 'thorough': 24}
@@ -242,7 +245,7 @@ _CASES = {}
 def plan(tier, seed):
     if tier not in _CASES:
         _CASES[tier] = cases(tier)
-    return [('cut', len(_CASES[tier]))]
+    return [('cut', len(_CASES[tier])), ('after-loss', 600 if tier == 'quick' else 8000)]
 
 
 def judge(p, specs, obs, fault):
@@ -357,6 +360,8 @@ def judge(p, specs, obs, fault):
 def run_case(gen, idx, rng, tier):
     assert_repo()
     from .. import vloop
+    if gen == 'after-loss':
+        return run_after_loss(idx, rng)
     if tier not in _CASES:
         _CASES[tier] = cases(tier)
     k, start, count = _CASES[tier][idx]
@@ -420,3 +425,101 @@ def classify(w):
     if c == 'sends-after-connection-ended' and d.get('all_senders_blocked_in_handler'):
         return 'loss-unnoticed-while-handler-suspended'
     return None
+
+
+# ---- requests issued after the connection was lost, then close() -----------------------------------------------
+
+
+def gen_after_loss(rng):
+    return {'link': rng.choice(['bytes', 'messages']), 'end': rng.choice(['eof', 'error', 'peer-close']),
+            'side': rng.choice('cs'), 'gap': rng.choice([0.0, 0.01, 0.5, 3.0]),
+            'requests': [rng.choice(['rr', 'stream', 'channel', 'fnf']) for _ in range(rng.choice([1, 2, 3]))],
+            'gap2': rng.choice([0.0, 0.01, 1.0]), 'before': rng.choice([[], ['rr'], ['stream']])}
+
+
+async def _after_loss(rng, d):
+    import asyncio
+    from ..pair import Pair
+    from .. import links
+    from ..apps import make_payload, DIR_REQUEST, DIR_RESPONSE, RecSubscriber
+    cfg = {'link': d['link'], 'frag_c': None, 'frag_s': None, 'knobs_c': links.Knobs(rng), 'knobs_s': links.Knobs(rng),
+           'keepalive': 1.0, 'max_lifetime': 1000.0, 'horizon': 40.0}
+    if d['end'] == 'eof' and d['link'] != 'bytes':
+        d['end'] = 'error'
+    p = Pair(rng, cfg)
+    await p.start()
+    world = p.world
+    ep = p.ep(d['side'])
+    other = 's' if d['side'] == 'c' else 'c'
+    made = []
+    iid = [0]
+
+    def issue(kind):
+        iid[0] += 1
+        i = iid[0]
+        world.specs[i] = {'iid': i, 'model': kind, 'side': d['side'],
+                          'resp': {'size': (5, 0), 'outcome': 'never', 'elems': [(5, 0)] * 3, 'terminal': 'never',
+                                   'pacing': ('timed', 0.05), 'source': 'rec', 'up_n0': 2}, 'up': None}
+        world.inter[i] = {}
+        pl = make_payload(i, DIR_REQUEST, 0, 16, 0)
+        world.log('call', who=d['side'], iid=i, model=kind)
+        try:
+            if kind == 'rr':
+                made.append((kind, i, ep.request_response(pl)))
+            elif kind == 'fnf':
+                made.append((kind, i, ep.fire_and_forget(pl)))
+            else:
+                sub = RecSubscriber(world, i, DIR_RESPONSE, 'sub%d' % i, policy=('refill', 2, 0), initial_granted=2)
+                h = ep.request_stream(pl) if kind == 'stream' else ep.request_channel(pl)
+                h.initial_request_n(2).subscribe(sub)
+                made.append((kind, i, sub))
+        except Exception as e:
+            made.append((kind, i, ('raised', repr(e)[:80])))
+
+    for kind in d['before']:
+        issue(kind)
+    await asyncio.sleep(0.2)
+    nbefore = len(made)
+    world.log('connection_ends', how=d['end'])
+    if d['end'] == 'peer-close':
+        await p.ep(other).close()
+    else:
+        p.link.cut(d['end'])
+    await asyncio.sleep(d['gap'])
+    for kind in d['requests']:
+        issue(kind)
+    await asyncio.sleep(d['gap2'])
+    world.log('explicit_close', who=d['side'])
+    await ep.close()
+    await asyncio.sleep(SETTLE)
+    out = []
+    for n, (kind, i, obj) in enumerate(made):
+        if isinstance(obj, tuple):
+            state = 'call-raised'
+        elif kind in ('rr', 'fnf'):
+            state = 'resolved' if obj.done() else 'hanging'
+            if obj.done() and not obj.cancelled():
+                obj.exception()
+        else:
+            state = 'resolved' if any(x in TERMINALS for x in obj.log) else 'hanging'
+        out.append({'iid': i, 'model': kind, 'issued': 'before the loss' if n < nbefore else 'after the loss', 'state': state})
+    await p.close()
+    return p, out
+
+
+def run_after_loss(idx, rng):
+    from .. import vloop
+    from ..runner import short_hash
+    from ..pair import trace_excerpt
+    d = gen_after_loss(rng)
+    p, out = vloop.run(_after_loss(rng, d))
+    st = {'fault_points_run': 0, 'pending_requests_judged': len(out), 'producers_judged': 0, 'on_close_checked': 0,
+          'cuts_inside_fragment_runs': 0, 'requests_issued_after_loss_judged': sum(1 for o in out if o['issued'] == 'after the loss')}
+    wit = []
+    for o in out:
+        if o['state'] == 'hanging' and o['model'] != 'fnf':
+            wit.append({'clause': 'request-left-hanging-after-close',
+                        'detail': dict(o, case=d, endpoint=d['side'], trace=trace_excerpt(p.world, 60)[-60:])})
+            break
+    return {'evals': 1, 'nt_keys': [short_hash(d)], 'deciding': st, 'witnesses': wit, 'sigs': [p.world.signature()],
+            'counts': {'after_loss_runs': 1}, 'sample': d}
